@@ -303,7 +303,9 @@ func (server *GripServer) BulkAdd(stream gripql.Edit_BulkAddServer) error {
 				log.WithFields(log.Fields{"graph": element.Graph, "error": err}).Errorf("BulkAdd: vertex validation failed")
 			} else {
 				insertCount++
-				elementStream <- gdbi.NewGraphElement(element)
+				// an element may carry a vertex AND an edge: each is counted and must be loaded on
+				// its own (the loaders take the vertex of an element and look no further)
+				elementStream <- gdbi.NewGraphElement(&gripql.GraphElement{Graph: element.Graph, Vertex: element.Vertex})
 			}
 		}
 
@@ -317,7 +319,7 @@ func (server *GripServer) BulkAdd(stream gripql.Edit_BulkAddServer) error {
 				log.WithFields(log.Fields{"graph": element.Graph, "error": err}).Errorf("BulkAdd: edge validation failed")
 			} else {
 				insertCount++
-				elementStream <- gdbi.NewGraphElement(element)
+				elementStream <- gdbi.NewGraphElement(&gripql.GraphElement{Graph: element.Graph, Edge: element.Edge})
 			}
 		}
 	}
